@@ -166,7 +166,7 @@ def call_name(c):
     return c if isinstance(c, str) else obj_path(c)
 
 
-def run_project(files):
+def run_project(files, **settings):
     """-> (error or None, {unit path tuple: {"calls": [...], "tab": snapshot or None}})"""
     m = sf()
     snaps = {}
@@ -181,7 +181,7 @@ def run_project(files):
     with F.Work(files) as w:
         m.FortranCodeUnit._find_chain_item = spy
         try:
-            p = F.parse_project(w.root, display=["public", "private", "protected"], dbg=False)
+            p = F.parse_project(w.root, display=["public", "private", "protected"], dbg=False, **settings)
         except Exception as e:  # noqa
             return f"{type(e).__name__}", {}
         finally:
